@@ -52,6 +52,7 @@ SliceTab ==
     "deadS"  :> S(AR2, <<>>, {"abs"}, {"*"}, FALSE, {}, {"SinOsc"}, {}, 2, "ReplaceOut", 2, FALSE) @@
     "ratesS" :> S(MIX, K1, {"neg"}, {"+", "*"}, TRUE, {}, {}, {2}, 1, "Out", 1, FALSE) @@
     "divS"   :> S(AR2, <<>>, {"neg"}, {"/"}, FALSE, {}, {}, {}, 2, "Out", 2, FALSE) @@
+    "zeroS"  :> S(AR2, <<>>, {"neg"}, {"+", "*"}, FALSE, {}, {}, {0}, 1, "Out0", 2, FALSE) @@
     "localS" :> S(MIX, <<>>, {"neg"}, {"+"}, FALSE, {}, {}, {2}, 1, "LocalOut", 1, FALSE) @@
     "badS"   :> S(MIX, K1, {"neg"}, {"+", "*"}, FALSE, {}, {"Pan2", "LPF"}, {0, 2}, 1, "Out", 2, TRUE) @@
     \* ---- large slices (thorough tier exhaustive; quick tier samples them with -simulate)
@@ -72,10 +73,10 @@ SliceTab ==
                   {"Pan2", "LPF", "SinOsc", "LFNoise0", "K2A", "DC"}, {0, 1, 0 - 1, 2, 3}, 12, "Out", 2, FALSE)
 Groups ==
     "quick" :> {"coverS", "sumS", "sum3S", "negS", "shortS", "maddS", "mulS", "opsS", "moS", "deadS", "ratesS",
-                "divS", "localS"} @@
+                "divS", "localS", "zeroS"} @@
     "l2S" :> {"coverS", "shortS"} @@
     "thorough" :> {"coverS", "sumS", "sum3S", "negS", "shortS", "maddS", "mulS", "opsS", "moS", "deadS", "ratesS",
-                   "divS", "localS", "ops1", "dead2", "local2", "div2", "ring2"} @@
+                   "divS", "localS", "zeroS", "ops1", "dead2", "local2", "div2", "ring2"} @@
     \* too big to enumerate within the budget: sampled with random walks (RSpec)
     "sampled" :> {"sum3", "ring3", "neg3", "madd2", "rates2", "mo2", "ring2", "div2", "dead2", "local2", "ops1"}
 SliceNames == IF IOEnv.VERIF_SLICE \in DOMAIN Groups THEN Groups[IOEnv.VERIF_SLICE] ELSE {IOEnv.VERIF_SLICE}
@@ -111,7 +112,9 @@ AddGen == ~done /\ NOps < Slice.n /\ \E cls \in Slice.gens, rate \in {1, 2}, a \
 Finish == /\ ~done
           /\ \E a \in Signals :
                LET fixed == IF Slice.sink = "LocalOut" THEN <<>> ELSE <<C(0)>>
-                   p2 == Program(Append(prog.ins, Gen(Slice.sink, Slice.srate, 0, fixed \o <<a>>))) IN
+                   zero == IF Slice.sink = "Out0" THEN <<C(0)>> ELSE <<>>       \* a literal 0 channel (becomes silence)
+                   cls == IF Slice.sink = "Out0" THEN "Out" ELSE Slice.sink
+                   p2 == Program(Append(prog.ins, Gen(cls, Slice.srate, 0, fixed \o <<a>> \o zero))) IN
                /\ Decidable(p2)
                /\ Slice.anyrate \/ MustCompile(p2)
                /\ prog' = p2 /\ done' = TRUE /\ UNCHANGED sl
@@ -135,7 +138,9 @@ RAddGen == ~done /\ NOps < Slice.n /\ Slice.gens # {} /\ \E cls \in Pick(Slice.g
 RFinish == /\ ~done /\ NOps >= Slice.n \div 2
            /\ \E a \in Pick(Signals) :
                LET fixed == IF Slice.sink = "LocalOut" THEN <<>> ELSE <<C(0)>>
-                   p2 == Program(Append(prog.ins, Gen(Slice.sink, Slice.srate, 0, fixed \o <<a>>))) IN
+                   zero == IF Slice.sink = "Out0" THEN <<C(0)>> ELSE <<>>       \* a literal 0 channel (becomes silence)
+                   cls == IF Slice.sink = "Out0" THEN "Out" ELSE Slice.sink
+                   p2 == Program(Append(prog.ins, Gen(cls, Slice.srate, 0, fixed \o <<a>> \o zero))) IN
                /\ Decidable(p2)
                /\ Slice.anyrate \/ MustCompile(p2)
                /\ prog' = p2 /\ done' = TRUE /\ UNCHANGED sl
@@ -183,7 +188,7 @@ NaiveDef(p) ==
      names |-> [i \in 1..Len(p.ctl) |-> [n |-> p.ctl[i].n, i |-> i - 1]],
      units |-> acc.units, variants |-> <<>>]
 NaiveM(p) == NaiveAcc(p).m
-Parsed(d) == [ok |-> 1, err |-> "", magic |-> "SCgf", version |-> 2, ndefs |-> 1, consumed |-> 0, total |-> 0, defs |-> <<d>>]
+Parsed(d) == [ok |-> 1, err |-> "", errc |-> "", magic |-> "SCgf", version |-> 2, ndefs |-> 1, consumed |-> 0, total |-> 0, defs |-> <<d>>]
 
 \* ... or a unit with a side effect removed from the certificate
 NaiveOK == done => /\ ImplWhy(prog, NaiveDef(prog), NaiveM(prog)) = "ok"
